@@ -1083,9 +1083,15 @@ def regslots_ir(rng):
     idxs = list(range(n))
     rng.shuffle(idxs)
     for i in idxs:
-        g = rng.choice(["x", "x", "h", "y", "ry"])
+        g = rng.choice(["x", "x", "h", "y", "ry", "rz", "rx"])
+        if g[0] == "r":
+            # a double-valued angle far from zero: the product of two float literals
+            a, b = f32(rng.choice([123.456, 10.3, 57.29, 8191.7])), f32(rng.choice([21.0, 7.7, -11.9, 8193.3]))
+            ir.append(dict(k="gate", g=g, via="direct", qs=[("e", r_, i, rng.choice("ckx"))], theta=a * b, tprod=(a, b),
+                           tform="prod"))
+            continue
         ir.append(dict(k="gate", g=g, via=rng.choice(["direct", "func"]), qs=[("e", r_, i, rng.choice("ckx"))],
-                       theta=0.5 if g == "ry" else None, tform="lit"))
+                       theta=None, tform="lit"))
     if n >= 2 and rng.random() < 0.6:
         a, b = rng.sample(range(n), 2)
         ir.append(dict(k="gate", g="cx", via="direct", qs=[("e", r_, a, "c"), ("e", r_, b, "k")], theta=None))
@@ -1254,7 +1260,8 @@ class Model:
             self.report("C01", key, "program performs %s but the simulator was asked for %s(%d%s)"
                         % (desc, e["op"], e["q0"], "" if e["q1"] < 0 else ",%d" % e["q1"]))
             raise Mismatch("C01", key, desc)
-        if theta is not None and abs(e["theta"] - theta) > 1e-6 * max(1.0, abs(theta)):
+        # the angle reaches the simulator as the double the program computed (float literals are exact in it)
+        if theta is not None and abs(e["theta"] - theta) > 1e-9 * max(1.0, abs(theta)):
             self.report("C01", "lang:angle", "%s reached the simulator with theta=%r" %
                         (desc, e["theta"]))
             raise Mismatch("C01", "lang:angle", desc)
